@@ -1,0 +1,8 @@
+//go:build verif
+// +build verif
+
+package flate
+
+import "github.com/intel/fastgo/compress/flate/internal/deflate"
+
+type deflateVerifGen = deflate.VerifGen
